@@ -1,5 +1,81 @@
 (* Property C07 — after a crash the filesystem holds exactly the durable image.
-   This file only states the theorems; see DESIGN.md section 5 (C07). *)
+   This file only states the theorems and closes them with the lemmas of
+   Durable.v / C07_proofs.v; see DESIGN.md section 5 (C07).
+
+   FsDurable = the durable image computed from the history as the property words
+   it (entry durable iff its parent was synced while it existed; contents = the
+   contents at the last data sync; a background-sync coin is a data sync). *)
 From TV.Lib Require Import Base.
-From TV.Fs Require Import FsImpl FsSpec FsSafe FsDurable C07_proofs.
+From TV.Fs Require Import FsImpl FsSpec FsSafe FsDurable Durable C10_proofs C07_proofs.
 Open Scope N_scope.
+
+(* Crash image: for EVERY history with crashes at arbitrary points and arbitrarily
+   many crash - continue - crash rounds, for every value of every background-sync
+   coin, over the whole alphabet except create_dir_all / remove_dir_all /
+   remove_dir, that meets no known class (FsSafe), creates no directory where a
+   file was unlinked since the last crash (KindSwap) and whose crashes find every
+   durable entry reachable through durable ancestors: every observation of the
+   implementation — before, between and after the crashes — is the observation of
+   the reference tree with the durable image substituted at each crash.
+   Hence after a crash a file is present iff its entry was made durable by a
+   sync of its parent and not durably removed; its contents are those of its last
+   data sync (explicit, or a coin); unsynced creates, writes, truncations and
+   removals are rolled back.  Block size 0 (no torn writes): see partial_note. *)
+Theorem c07_crash_image : forall l,
+  forallb c07_op l = true -> dsafe 0 l = true ->
+  Forall2 obs_ok (snd (drun (init_dworld 0) l)) (snd (run (init_world 0) l)).
+Proof. exact crash_image_lemma. Qed.
+
+(* What the image says (the definitions read back): a durable file entry carries
+   exactly the contents of its last data sync; a path without a durable entry does
+   not exist after the crash. *)
+Theorem c07_synced_never_lost : forall d p i draws,
+  dbs d = 0%nat -> dangling d = false -> nget (dents d) p = Some (EFile i) ->
+  snd (sstep (dw (dcrash d draws)) (Slurp p)) = OBytes (iget (ddata d) i).
+Proof. exact synced_never_lost_lemma. Qed.
+
+Theorem c07_unsynced_entry_gone : forall d p draws,
+  dangling d = false -> nget (dents d) p = None ->
+  snd (sstep (dw (dcrash d draws)) (Exists p)) = OBool false.
+Proof. exact unsynced_entry_gone_lemma. Qed.
+
+(* Random background sync: a coin that comes up true is a data sync of that file
+   right after the write, nothing else (so the post-crash contents are the
+   contents at a sync point not earlier than the last explicit one). *)
+Theorem c07_random_sync : forall d slot off data h,
+  sget (shs (dw d)) slot = Some h -> sw h = true ->
+  fst (dstep d (WriteAt slot off data true)) =
+  data_sync (fst (dstep d (WriteAt slot off data false))) (sino h).
+Proof. exact coin_is_sync_lemma. Qed.
+
+(* Known classes on the durability side. *)
+Theorem c07_rename_file_refuted :
+  d_in_class 0 KRenameFile wd_rename_file = true /\
+  dspec_out 0 wd_rename_file 9 = OBytes [65; 66] /\ dimpl_out 0 wd_rename_file 9 = OBytes [].
+Proof. exact c07_rename_file_refuted_lemma. Qed.
+
+Theorem c07_recreate_refuted :
+  d_in_class 0 KRecreate wd_recreate = true /\
+  dspec_out 0 wd_recreate 11 = OBytes [88] /\ dimpl_out 0 wd_recreate 11 = OBytes [].
+Proof. exact c07_recreate_refuted_lemma. Qed.
+
+Theorem c07_kind_swap_refuted :
+  dspec_out 0 wd_kind_swap 7 = ODir /\ dimpl_out 0 wd_kind_swap 7 = OFile 1.
+Proof. exact c07_kind_swap_refuted_lemma. Qed.
+
+(* Non-vacuity: two crashes, a coin, a durable and a non-durable file, an
+   unsynced overwrite and an unsynced unlink that are rolled back. *)
+Example c07_nonvacuous :
+  forallb c07_op hd_demo = true /\ dsafe 0 hd_demo = true /\
+  dimpl_out 0 hd_demo 10 = OBytes [65; 66; 67] /\ dimpl_out 0 hd_demo 11 = OBool false /\
+  dimpl_out 0 hd_demo 16 = OBytes [65; 66; 67; 89].
+Proof. vm_compute. repeat split; reflexivity. Qed.
+
+Print Assumptions c07_crash_image.
+Print Assumptions c07_synced_never_lost.
+Print Assumptions c07_unsynced_entry_gone.
+Print Assumptions c07_random_sync.
+Print Assumptions c07_rename_file_refuted.
+Print Assumptions c07_recreate_refuted.
+Print Assumptions c07_kind_swap_refuted.
+Print Assumptions c07_nonvacuous.
